@@ -38,6 +38,8 @@
 //	stream.headers                header block not allowed by the gRPC protocol
 //	stream.id                     client stream id not odd / not increasing
 //	stream.maxconcurrent          client opened a stream above MAX_CONCURRENT_STREAMS in force
+//	stream.halfclosed_over_limit  same, but only when streams ended by the peer and neither ended
+//	                              nor reset by the client are counted (they are half-closed)
 //	settings.ack                  SETTINGS ACK without outstanding SETTINGS
 //	goaway.increasing             GOAWAY last-stream-id increased
 //
